@@ -51,7 +51,7 @@ FeedStep ==
           /\ Check("C15.fields", c, l, C15_Fields(j', g'))
           /\ Check("C15.accounting", c, l, C15_Accounting(j', g'))
           /\ Check("C15.trip-mark-marks-stops", c, l, C15_TripMarkMarksStops(j'))
-          /\ Check("C15.skipped-noop", c, l, C15_SkippedNoOp(j, g, f, j'))
+          /\ Check("C15.skipped-noop", c, l, OnePerUid(f) => C15_SkippedNoOp(j, g, f, j'))
           /\ Check("C15.absent-only-marks", c, l, C15_AbsentOnlyMarks(j, f, j'))
           /\ Check("C14.step", c, l, OnePerUid(f) => C14_Step(j, g, f, j'))
 
